@@ -220,6 +220,12 @@ func (db *DB) loadSchema(of Object) (s *Schema, err error) {
 			return
 		}
 
+		// the file may hold a valid json document which is not a schema at all
+		if s == nil {
+			err = fmt.Errorf("%w: %s does not hold a schema", ErrBadSchema, path)
+			return
+		}
+
 		// we initialize schema from object
 		if err = s.initialize(db, of); err != nil {
 			return
